@@ -72,14 +72,21 @@ func (x *fnCtx) newTopState() (*State, *Frame) {
 			st.assume(Ne(r.L[0], IntLit(0)))
 		}
 	}
+	st.assume(Not(Select(x.heapArr(st, "$alloc", ArrSort(SInt, SBool)), IntLit(0))))
 	fr.oldHeap = st.heap.snapshot()
 	return st, fr
 }
 
 func (x *fnCtx) assumeRequires(st *State, fr *Frame) {
 	env := &specEnv{x: x, st: st, heap: st.heap, old: fr.oldHeap, names: x.paramNames(fr), fr: fr}
-	for _, ax := range x.eng.db.Axioms {
-		st.assume(x.evalSpecBool(&specEnv{x: x, st: st, heap: st.heap, old: st.heap, names: map[string]nameBind{}, fr: fr}, ax.Expr))
+	if !x.eng.axiomsDone {
+		x.eng.axiomsDone = true
+		for _, ax := range x.eng.db.Axioms {
+			t := x.evalSpecBool(&specEnv{x: x, st: st, heap: st.heap, old: st.heap, names: map[string]nameBind{}, fr: fr}, ax.Expr)
+			ga := &GlobalAxiom{Name: ax.Name, T: t, Funs: map[string]bool{}}
+			termFuns(t, ga.Funs, map[*Term]bool{})
+			GlobalAxioms = append(GlobalAxioms, ga)
+		}
 	}
 	for _, cl := range x.con.ClausesOf("requires") {
 		st.assume(x.evalSpecBool(env, cl.Expr))
@@ -107,6 +114,14 @@ func (x *fnCtx) explore() {
 	fr.oldHeap = st.heap.snapshot()
 	if !x.collecting {
 		x.vacuityCheck(st, "requires")
+		// lemmas: pure implications discharged on their own in the entry state
+		for _, cl := range x.con.ClausesOf("lemma") {
+			if !cl.appliesTo(x.eng.prop) {
+				continue
+			}
+			env := &specEnv{x: x, st: st, heap: st.heap, old: fr.oldHeap, names: x.paramNames(fr), fr: fr}
+			x.addVC(st, x.short, "lemma", cl.Ord, "", x.evalSpecBool(env, cl.Expr), "lemma "+cl.Text, cl.Line)
+		}
 	}
 	x.runBlock(st, x.fn.Blocks[0], nil, true)
 	// from each loop header
@@ -163,6 +178,7 @@ func (x *fnCtx) startAtHeader(st *State, fr *Frame, h *ssa.BasicBlock, ord int) 
 				nw := Fresh("H.$alloc", ArrSort(SInt, SBool))
 				bk := BVar("r", SInt)
 				st.assume(Forall([]*Term{bk}, Implies(Select(old, bk), Select(nw, bk)), Select(old, bk)))
+				st.assume(Not(Select(nw, IntLit(0))))
 				st.heap.m["$alloc"] = nw
 				continue
 			}
